@@ -13,7 +13,10 @@ func InitGenesis(ctx sdk.Context, k keeper.Keeper, state *types.GenesisState) {
 
 	for _, item := range state.LockedVault {
 		k.SetLockedVault(ctx, item)
-		lockedVaultID = lockedVaultID + 1
+		// the counter is the id handed out last, not the number of locked vaults still open
+		if item.LockedVaultId > lockedVaultID {
+			lockedVaultID = item.LockedVaultId
+		}
 	}
 
 	for _, item := range state.WhitelistedApps {
